@@ -24,6 +24,8 @@
 (*   LInitSend / LInitClose    the Init channel                            *)
 (*   SRead      Proxy.distributor() under distMu.RLock                     *)
 (*   SCompat    Distributor.addSomeChain under d.mu.RLock (eligible logs)  *)
+(*   RStart / RWakeTick / RWakeDone   schedule.Every of a root refresher   *)
+(*   RCall      RefreshRoots sends get-roots (the context may be dead)     *)
 (*   RFinish    Distributor.RefreshRoots: the update under d.mu            *)
 (* Time is counted in log-list refresh intervals: Advance lets one interval*)
 (* pass; every root refresher ticks every RootEvery intervals after it was *)
@@ -84,11 +86,11 @@ VARIABLES
   initClosed,
   panicked,    \* a send on / close of a closed channel happened
   \* root refreshers, one per generation
-  rpc,         \* [Gens -> "none", "start", "refreshing", "idle", "stopped"]
+  rpc,         \* [Gens -> "none", "start", "calling", "refreshing", "idle", "stopped"]
   rTick,       \* [Gens -> BOOLEAN] buffered tick
   rCount,      \* [Gens -> 1..RootEvery] Advance steps until the next tick
   rcancel,     \* [Gens -> BOOLEAN] distCancel of this generation was called
-  rdead,       \* [Gens -> BOOLEAN] the refresh in flight was begun with a cancelled context
+  rdead,       \* [Gens -> BOOLEAN] the refresh in flight sent its get-roots requests with a context that had ended
   rknown,      \* [Gens -> BOOLEAN] the distributor of this generation knows the accepted roots of its logs
   \* submissions
   spc,         \* [Subs -> "idle", "called", "read", "running", "failing", "done"]
@@ -108,7 +110,7 @@ vars == <<envVars, mgrVars, tickVars, loopVars, rootVars, subVars>>
 
 VersionOf(e) == emitted[e]
 Cancelled(g) == rcancel[g] \/ ctxDone
-Live(g) == rpc[g] \in {"refreshing", "idle"}       \* the goroutine owns a running ticker
+Live(g) == rpc[g] \in {"calling", "refreshing", "idle"}       \* the goroutine owns a running ticker
 
 \* The last sentence of C17: only usable logs whose temporal interval contains NotAfter and whose accepted roots,
 \* where known, include the chain's root
@@ -268,21 +270,29 @@ LInitClose ==
 
 (* ---------------------- root refreshers (one per generation) ---------------------- *)
 \* schedule.Every(refreshCtx, rootsRefreshInterval, d.RefreshRoots): return if the context is done, else create the
-\* ticker and refresh at once
+\* ticker and call f at once
 RStart(g) ==
   /\ rpc[g] = "start"
   /\ IF Cancelled(g)
-     THEN rpc' = [rpc EXCEPT ![g] = "stopped"] /\ UNCHANGED <<rTick, rCount, rdead>>    \* no ticker was created
-     ELSE /\ rpc' = [rpc EXCEPT ![g] = "refreshing"]
+     THEN rpc' = [rpc EXCEPT ![g] = "stopped"] /\ UNCHANGED <<rTick, rCount>>    \* no ticker was created
+     ELSE /\ rpc' = [rpc EXCEPT ![g] = "calling"]
           /\ rTick' = [rTick EXCEPT ![g] = FALSE] /\ rCount' = [rCount EXCEPT ![g] = RootEvery]
-          /\ rdead' = [rdead EXCEPT ![g] = FALSE]
-  /\ UNCHANGED <<envVars, mgrVars, tickVars, loopVars, rcancel, rknown, subVars>>
+  /\ UNCHANGED <<envVars, mgrVars, tickVars, loopVars, rcancel, rdead, rknown, subVars>>
 
-\* RefreshRoots returns.  With every get-roots answered the roots are known; with a context that ended (cancelled, or
-\* the 10 s get-roots timeout) every request fails and the distributor knows no roots any more.
+\* RefreshRoots sends get-roots to every log client of the distributor; the context may have ended since f was called
+RCall(g) ==
+  /\ rpc[g] = "calling"
+  /\ rpc' = [rpc EXCEPT ![g] = "refreshing"]
+  /\ rdead' = [rdead EXCEPT ![g] = Cancelled(g)]
+  /\ UNCHANGED <<envVars, mgrVars, tickVars, loopVars, rTick, rCount, rcancel, rknown, subVars>>
+
+\* RefreshRoots returns.  With every get-roots answered the roots are known; when the context ended first (cancelled,
+\* or the 10 s get-roots timeout) requests fail and the distributor knows no roots (of those logs) any more.  A refresh
+\* begun with a live context may have all its answers before the cancellation arrives; one begun with a dead context
+\* cannot succeed.
 RFinish(g, ok) ==
   /\ rpc[g] = "refreshing"
-  /\ ok => (~Cancelled(g) /\ ~rdead[g])
+  /\ ok => ~rdead[g]
   /\ rknown' = [rknown EXCEPT ![g] = ok]
   /\ rpc' = [rpc EXCEPT ![g] = "idle"]
   /\ UNCHANGED <<envVars, mgrVars, tickVars, loopVars, rTick, rCount, rcancel, rdead, subVars>>
@@ -291,9 +301,8 @@ RFinish(g, ok) ==
 RWakeTick(g) ==
   /\ rpc[g] = "idle" /\ rTick[g]
   /\ rTick' = [rTick EXCEPT ![g] = FALSE]
-  /\ rpc' = [rpc EXCEPT ![g] = "refreshing"]
-  /\ rdead' = [rdead EXCEPT ![g] = Cancelled(g)]
-  /\ UNCHANGED <<envVars, mgrVars, tickVars, loopVars, rCount, rcancel, rknown, subVars>>
+  /\ rpc' = [rpc EXCEPT ![g] = "calling"]
+  /\ UNCHANGED <<envVars, mgrVars, tickVars, loopVars, rCount, rcancel, rdead, rknown, subVars>>
 
 RWakeDone(g) ==
   /\ rpc[g] = "idle" /\ Cancelled(g)
@@ -344,7 +353,7 @@ SDone(s) ==
 Env == (\E v \in Versions : Publish(v)) \/ FailNext \/ Advance \/ Cancel
 Ticker == TStart \/ TRead \/ TManager \/ TProduce \/ TSendUpd \/ TSendErr \/ TWakeTick \/ TWakeDone
 Loop == LRecvUpd \/ LRecvErr \/ LCtxDone \/ LBuildStart \/ LBuildEnd \/ LSwap \/ LInitSend \/ LInitClose
-Roots == \E g \in Gens : RStart(g) \/ RWakeTick(g) \/ RWakeDone(g) \/ \E ok \in BOOLEAN : RFinish(g, ok)
+Roots == \E g \in Gens : RStart(g) \/ RCall(g) \/ RWakeTick(g) \/ RWakeDone(g) \/ \E ok \in BOOLEAN : RFinish(g, ok)
 Submit == \E s \in Subs : (\E c \in Certs : SCall(s, c)) \/ SRead(s) \/ SCompat(s) \/ SDone(s) \/ \E l \in Logs : SContact(s, l)
 
 Next == Env \/ Ticker \/ Loop \/ Roots \/ Submit
@@ -357,7 +366,7 @@ Fairness ==
   /\ SF_vars(TWakeTick) /\ SF_vars(TWakeDone)
   /\ SF_vars(LRecvUpd) /\ SF_vars(LRecvErr) /\ SF_vars(LCtxDone)
   /\ WF_vars(LBuildStart) /\ WF_vars(LBuildEnd) /\ WF_vars(LSwap) /\ WF_vars(LInitSend) /\ WF_vars(LInitClose)
-  /\ \A g \in Gens : /\ WF_vars(RStart(g)) /\ SF_vars(RWakeTick(g)) /\ SF_vars(RWakeDone(g))
+  /\ \A g \in Gens : /\ WF_vars(RStart(g)) /\ WF_vars(RCall(g)) /\ SF_vars(RWakeTick(g)) /\ SF_vars(RWakeDone(g))
                      /\ WF_vars(\E ok \in BOOLEAN : RFinish(g, ok))
   /\ \A s \in Subs : WF_vars(SRead(s)) /\ WF_vars(SCompat(s)) /\ WF_vars(SDone(s))
   /\ WF_vars(Advance)
@@ -377,7 +386,7 @@ TickerAuto == \/ tpc \in {"start", "manager", "produce"}
               \/ (tpc = "idle" /\ (tTick \/ ctxDone))
 LoopAuto == \/ (lpc = "select" /\ (updCh # <<>> \/ errCh > 0 \/ ctxDone))
             \/ lpc \in {"build", "swap", "initsend", "initclose"}
-RootsAuto == \E g \in Gens : rpc[g] = "start" \/ (rpc[g] = "idle" /\ (rTick[g] \/ Cancelled(g)))
+RootsAuto == \E g \in Gens : rpc[g] \in {"start", "calling"} \/ (rpc[g] = "idle" /\ (rTick[g] \/ Cancelled(g)))
 SubsAuto == \E s \in Subs : spc[s] \in {"called", "read", "failing"}
 Quiescent == ~(TickerAuto \/ LoopAuto \/ RootsAuto \/ SubsAuto)
 
@@ -393,7 +402,7 @@ TypeOK ==
   /\ latest \in 0..Len(emitted) /\ previous \in 0..Len(emitted) /\ Len(updCh) <= 1 /\ errCh \in 0..1
   /\ tpc \in {"start", "reading", "manager", "produce", "sendUpd", "sendErr", "idle", "stopped"}
   /\ lpc \in {"select", "build", "building", "swap", "initsend", "initclose", "exited"}
-  /\ \A g \in Gens : rpc[g] \in {"none", "start", "refreshing", "idle", "stopped"} /\ rCount[g] \in 0..RootEvery
+  /\ \A g \in Gens : rpc[g] \in {"none", "start", "calling", "refreshing", "idle", "stopped"} /\ rCount[g] \in 0..RootEvery
   /\ \A s \in Subs : spc[s] \in {"idle", "called", "read", "running", "failing", "done"}
   /\ Len(emitted) <= MaxEmit
 
@@ -445,15 +454,15 @@ InitOnce == /\ ~panicked /\ initSent <= 1
             /\ (lpc = "exited" => initClosed)
 
 \* OldRefresherCancelled (safety part): refreshers that are not cancelled belong to the active distributor or to the
-\* one about to be installed; a refresh begun after the cancellation runs with a dead context and a cancelled
-\* generation never learns roots again
-LiveRefreshers == {g \in Gens : rpc[g] \in {"start", "refreshing", "idle"} /\ ~rcancel[g]}
+\* one about to be installed; a refresh begun after the cancellation runs with a dead context, and such a
+\* refresh never yields roots
+LiveRefreshers == {g \in Gens : rpc[g] \in {"start", "calling", "refreshing", "idle"} /\ ~rcancel[g]}
 OldRefresherCancelled == LiveRefreshers \subseteq ({active} \cup (IF lpc = "swap" THEN {lcur} ELSE {}))
 DeadAfterCancel == [][\A g \in Gens : /\ (rpc[g] # "refreshing" /\ rpc'[g] = "refreshing" /\ Cancelled(g)) => rdead'[g]
-                                      /\ (Cancelled(g) /\ rknown'[g]) => rknown[g]]_vars
+                                      /\ (rpc[g] = "refreshing" /\ rdead[g] /\ rpc'[g] # "refreshing") => ~rknown'[g]]_vars
 \* Named, NOT asserted (the code does it): a refresher whose refresh spans a tick can, after the cancellation, choose the
 \* buffered tick over ctx.Done() and call RefreshRoots once more with the cancelled context.
-StrictStop == [][\A g \in Gens : Cancelled(g) => ~(rpc[g] = "idle" /\ rpc'[g] = "refreshing")]_vars
+StrictStop == [][\A g \in Gens : Cancelled(g) => ~(rpc[g] = "idle" /\ rpc'[g] = "calling")]_vars
 
 \* a full channel never wedges the pair while the context is alive: a blocked ticker faces a loop that can move
 PairNotStuck == (~ctxDone /\ tpc \in {"sendUpd", "sendErr"}) => lpc # "exited"
